@@ -12,6 +12,7 @@ import (
 
 	"verif/harness/av"
 	"verif/harness/rec"
+	"verif/harness/refcodec"
 	"verif/harness/vcmp"
 	"verif/harness/zoo"
 )
@@ -57,7 +58,7 @@ func TestC11(t *testing.T) {
 	cfg.MaxBig, cfg.Budget, cfg.NoBigStrings = 20, 120, true
 	garbage := c14Fixed()
 	check(t, "C11", func(rt *rapid.T, c *caseInfo) {
-		kind := rapid.SampledFrom([]string{"Serializer", "Encoder", "Decoder"}).Draw(rt, "instance")
+		kind := rapid.SampledFrom([]string{"Serializer", "Encoder", "Decoder", "Package"}).Draw(rt, "instance")
 		nv := rapid.IntRange(2, 6).Draw(rt, "nvalues")
 		vals := make([]interface{}, 0, nv)
 		descs := make([]string, 0, nv)
@@ -83,6 +84,39 @@ func TestC11(t *testing.T) {
 			}
 			enc[i] = b
 		}
+		// every other valid input in a non-canonical but legal rendering
+		for i, v := range vals {
+			if i%2 == 1 {
+				if a, perr := zoo.Project(v, nm); perr == nil {
+					alt := refcodec.Encode(a, rapidChoices{rt}, refcodec.EncOptions{HoistAnywhere: true, MaxPadding: 2})
+					if o1, e1 := hessian.ToObject(alt, tm); e1 == nil {
+						if o0, e0 := hessian.ToObject(enc[i], tm); e0 == nil && vcmp.EqualValues(o0, o1) == nil {
+							enc[i] = alt
+						}
+					}
+				}
+			}
+		}
+		// entries held back from the instance's maps, to be registered through its Register* methods
+		// in the course of the history (an Encoder / Decoder starts with incomplete maps half of the time)
+		pendingNames := map[string]string{}
+		pendingTypes := map[string]reflect.Type{}
+		if (kind == "Encoder" || kind == "Decoder") && rapid.Bool().Draw(rt, "startIncomplete") {
+			for k, v := range nm {
+				if strings.HasPrefix(k, "[]") {
+					pendingNames[k] = v
+					delete(nm, k)
+				}
+			}
+			if kind == "Decoder" {
+				for k, v := range tm {
+					if v.Kind() == reflect.Struct && rapid.Bool().Draw(rt, "holdBackType") {
+						pendingTypes[k] = v
+						delete(tm, k)
+					}
+				}
+			}
+		}
 		nmBefore := copyNames(nm)
 		tmBefore := map[string]reflect.Type{}
 		for k, v := range tm {
@@ -96,12 +130,33 @@ func TestC11(t *testing.T) {
 			ser = hessian.NewSerializer(tm, nm)
 		case "Encoder":
 			e = hessian.NewEncoder(nil, nm)
-		default:
+		case "Decoder":
 			d = hessian.NewDecoder(nil, tm)
 		}
 		// one reader object whose content is replaced between one-shot ReadFrom calls
 		// (the pooled usage of the repository's own benchmark)
 		shared := &countingReader{}
+		// results handed out by earlier calls (encoded bytes, decoded values) with a snapshot of what
+		// they were: using the instance again must not change them
+		type held struct {
+			what  string
+			bytes []byte
+			copyB []byte
+			value interface{}
+			canon string
+		}
+		var helds []held
+		holdBytes := func(what string, b []byte) {
+			if len(helds) < 6 && b != nil {
+				helds = append(helds, held{what: what, bytes: b, copyB: append([]byte{}, b...)})
+			}
+		}
+		holdValue := func(what string, v interface{}) {
+			if len(helds) < 6 && v != nil {
+				a, _ := zoo.Project(v, nil)
+				helds = append(helds, held{what: what, value: v, canon: av.Canon(a, av.Options{})})
+			}
+		}
 		var hist []string
 		kinds := map[string]bool{}
 		lastType := ""
@@ -136,7 +191,7 @@ func TestC11(t *testing.T) {
 			return av.Canon(a, av.Options{})
 		}
 		step := func() {
-			act := rapid.IntRange(0, 6).Draw(rt, "action")
+			act := rapid.IntRange(0, 7).Draw(rt, "action")
 			pv, st := guard(func() {
 				switch {
 				case act == 0: // one-shot encode, succeeds
@@ -144,9 +199,19 @@ func TestC11(t *testing.T) {
 					before := snapshot(vals[vi])
 					switch kind {
 					case "Serializer":
-						ser.ToBytes(vals[vi])
+						b, _ := ser.ToBytes(vals[vi])
+						holdBytes(fmt.Sprintf("bytes of encode #%d", len(hist)), b)
 					case "Encoder":
-						e.Encode(vals[vi])
+						b, _ := e.Encode(vals[vi])
+						holdBytes(fmt.Sprintf("bytes of encode #%d", len(hist)), b)
+					case "Package":
+						// the package-level one-shot function, with the caller's map or with none
+						var m map[string]string
+						if rapid.Bool().Draw(rt, "withNameMap") {
+							m = nm
+						}
+						b, _ := hessian.ToBytes(vals[vi], m)
+						holdBytes(fmt.Sprintf("bytes of ToBytes #%d", len(hist)), b)
 					default:
 						return
 					}
@@ -168,6 +233,8 @@ func TestC11(t *testing.T) {
 						} else {
 							e.Encode(bad())
 						}
+					case "Package":
+						hessian.ToBytes(bad(), nm)
 					default:
 						return
 					}
@@ -181,12 +248,17 @@ func TestC11(t *testing.T) {
 						shared.b, shared.pos = in, 0
 						ser.ReadFrom(shared)
 					case kind == "Serializer":
-						ser.ToObject(in)
+						o, _ := ser.ToObject(in)
+						holdValue(fmt.Sprintf("value of decode #%d", len(hist)), o)
 					case kind == "Decoder" && viaShared:
 						shared.b, shared.pos = in, 0
 						d.ReadFrom(shared)
 					case kind == "Decoder":
-						d.Decode(in)
+						o, _ := d.Decode(in)
+						holdValue(fmt.Sprintf("value of decode #%d", len(hist)), o)
+					case kind == "Package":
+						o, _ := hessian.ToObject(in, tm)
+						holdValue(fmt.Sprintf("value of ToObject #%d", len(hist)), o)
 					default:
 						return
 					}
@@ -202,6 +274,12 @@ func TestC11(t *testing.T) {
 						ser.ToObject(in)
 					case "Decoder":
 						d.Decode(in)
+					case "Package":
+						var m map[string]reflect.Type
+						if rapid.Bool().Draw(rt, "withTypeMap") {
+							m = tm
+						}
+						hessian.ToObject(in, m)
 					default:
 						return
 					}
@@ -253,6 +331,28 @@ func TestC11(t *testing.T) {
 						}
 					}
 					note("stream-read", last)
+				case act == 6 && (len(pendingNames) > 0 || len(pendingTypes) > 0):
+					// register one of the entries held back (the instance's map is the caller's map)
+					if kind == "Encoder" {
+						for k, v := range pendingNames {
+							e.RegisterNameType(k, v)
+							nmBefore[k] = v
+							delete(pendingNames, k)
+							break
+						}
+					} else {
+						for k, v := range pendingTypes {
+							if rapid.Bool().Draw(rt, "registerVal") {
+								d.RegisterVal(k, reflect.Zero(v).Interface())
+							} else {
+								d.RegisterType(k, v)
+							}
+							tmBefore[k] = v
+							delete(pendingTypes, k)
+							break
+						}
+					}
+					note("register", -1)
 				default: // Reset
 					switch kind {
 					case "Encoder":
@@ -311,19 +411,32 @@ func TestC11(t *testing.T) {
 		}
 		var msgs []string
 		if kind != "Decoder" {
-			if kind == "Serializer" {
+			pnm := nm
+			switch kind {
+			case "Serializer":
 				used = probeEnc(func() ([]byte, error) { return ser.ToBytes(vals[pi]) })
-			} else {
+			case "Package":
+				if rapid.Bool().Draw(rt, "probeWithoutNameMap") {
+					pnm = nil // a call without a map after calls with one
+				}
+				used = probeEnc(func() ([]byte, error) { return hessian.ToBytes(vals[pi], copyNames(pnm)) })
+			default:
 				used = probeEnc(func() ([]byte, error) { return e.Encode(vals[pi]) })
 			}
-			fresh = probeEnc(func() ([]byte, error) { return hessian.NewSerializer(tm, nm).ToBytes(vals[pi]) })
+			fresh = probeEnc(func() ([]byte, error) { return hessian.NewSerializer(tm, copyNames(pnm)).ToBytes(vals[pi]) })
 			if m := c11Same("probe encode of "+descs[pi], used, fresh); m != "" {
 				msgs = append(msgs, m)
 			}
 		}
 		if kind != "Encoder" {
 			probeShared := rapid.Bool().Draw(rt, "probeViaSharedReader")
+			ptm := tm
 			switch {
+			case kind == "Package":
+				if rapid.IntRange(0, 3).Draw(rt, "probeWithoutTypeMap") == 0 {
+					ptm = nil // a call without a map after calls with one: must not know the earlier caller's classes
+				}
+				used = probeDec(func() (interface{}, error) { return hessian.ToObject(q, ptm) })
 			case kind == "Serializer" && probeShared:
 				shared.b, shared.pos = q, 0
 				used = probeDec(func() (interface{}, error) { return ser.ReadFrom(shared) })
@@ -335,13 +448,13 @@ func TestC11(t *testing.T) {
 			default:
 				used = probeDec(func() (interface{}, error) { return d.Decode(q) })
 			}
-			fresh = probeDec(func() (interface{}, error) { return hessian.NewSerializer(tm, nm).ToObject(q) })
+			fresh = probeDec(func() (interface{}, error) { return hessian.NewSerializer(ptm, nm).ToObject(q) })
 			if used.isErr && fresh.isErr && used.err != fresh.err {
 				// which of several offending entries of a map is reported first follows Go's map
 				// iteration order: the text is only comparable if fresh instances agree among themselves
 				texts := map[string]bool{fresh.err: true}
 				for i := 0; i < 12; i++ {
-					f := probeDec(func() (interface{}, error) { return hessian.NewSerializer(tm, nm).ToObject(q) })
+					f := probeDec(func() (interface{}, error) { return hessian.NewSerializer(ptm, nm).ToObject(q) })
 					texts[f.err] = true
 				}
 				if texts[used.err] || len(texts) > 1 {
@@ -366,6 +479,17 @@ func TestC11(t *testing.T) {
 		})
 		if len(msgs) > 0 {
 			failf(rt, c, "C11 %s after history %v: %s\n values: %v", kind, hist, strings.Join(msgs, "; "), descs)
+		}
+		for _, h := range helds {
+			if h.bytes != nil && !bytes.Equal(h.bytes, h.copyB) {
+				failf(rt, c, "C11 %s: the %s, handed to the caller earlier, changed when the instance was used again; history %v", kind, h.what, hist)
+			}
+			if h.value != nil {
+				a, _ := zoo.Project(h.value, nil)
+				if av.Canon(a, av.Options{}) != h.canon {
+					failf(rt, c, "C11 %s: the %s, handed to the caller earlier, changed when the instance was used again; history %v", kind, h.what, hist)
+				}
+			}
 		}
 		if !reflect.DeepEqual(nm, nmBefore) {
 			failf(rt, c, "C11 %s: the complete caller-supplied name map was modified; history %v", kind, hist)
